@@ -2,6 +2,7 @@
 VARIANT = "san"
 RULE = "see stats"
 TIMEOUT = {"quick": 900, "search": 1800, "thorough": 3 * 3600}
+GEN = ["GeomFns"]
 PARTIAL = [
     "single-precision arithmetic of spreadCells/spreadCoordX/Y: modelled bit for bit (Model/SpreadF.lean: one binary32 "
     "round-to-nearest-even per C++ operator, the clamp of fixes/c06-spread-clamp.diff included; x86-64 SSE, no FMA contraction — "
